@@ -3,6 +3,7 @@
 #include "muggle/c/base/utils.h"
 #include "muggle/c/log/log.h"
 #include <stdlib.h>
+#include <stdint.h>
 #include <string.h>
 
 int muggle_ring_memory_pool_init(muggle_ring_memory_pool_t *pool,
@@ -23,10 +24,17 @@ int muggle_ring_memory_pool_init(muggle_ring_memory_pool_t *pool,
 		return MUGGLE_ERR_INVALID_PARAM;
 	}
 
+	// computed in 64 bits: block offsets are products of two muggle_sync_t, so
+	// a data area that does not fit muggle_sync_t is refused instead of wrapping
+	uint64_t block_size64 = muggle_next_pow_of_2(
+		(uint64_t)data_size + sizeof(muggle_ring_mpool_block_head_t));
+	if (block_size64 > (uint64_t)UINT32_MAX / capacity) {
+		return MUGGLE_ERR_INVALID_PARAM;
+	}
+
 	muggle_spinlock_init(&pool->write_spinlock);
 	pool->capacity = capacity;
-	pool->block_size =
-		muggle_next_pow_of_2(data_size + sizeof(muggle_ring_mpool_block_head_t));
+	pool->block_size = (muggle_sync_t)block_size64;
 	pool->alloc_idx = 0;
 
 	pool->blocks = malloc(pool->block_size * pool->capacity);
